@@ -83,6 +83,40 @@ theorem C20_sort_unique (ids s : List Identity) (hd : ids.Pairwise (fun a b => i
 theorem C20_sort_unique_strings (l s : List Bytes) (hs : IsSort lexLe l s) : s = sortStrings l :=
   sorted_perm_unique lexLe_trans lexLe_total hs.1 hs.2 (fun a b _ _ => lexLe_antisymm a b)
 
+/-! ### Identities with equal (category, type, lang) but different names
+
+XEP-0115 §5.4 step 3.3 declares a reply ill-formed only when two identities agree in all four
+of category/type/lang/**name**; two identities that differ in the name alone are well formed,
+and §5.1 step 2 sorts by category, type, lang only — so the XEP leaves their relative order
+open and the verification string of such an info is *not* determined by the set of identities.
+What the code does: a stable sort (Go's `sort.Slice` is an insertion sort up to 12 elements)
+keeps them in the order in which they were given. -/
+
+/-- two identities with equal sort keys are hashed in the order given … -/
+theorem C20_equal_key_identities_keep_order (a b : Identity) (h : idKey a = idKey b) :
+    verImpl ⟨[a, b], [], []⟩ = renderId a ++ renderId b := by
+  have hle : idLe a b = true := by
+    unfold idLe; rw [h]
+    have : ∀ k : List Bytes, keysLe k k = true := by
+      intro k; induction k with
+      | nil => rfl
+      | cons x xs ih => rw [keysLe_cons]; exact .inr ⟨rfl, ih⟩
+    exact this _
+  have hs : [a, b].mergeSort idLe = [a, b] :=
+    List.mergeSort_of_pairwise (le := idLe) (by simp [hle])
+  simp [verImpl, hs, sortStrings]
+
+/-- … hence the string depends on that order: a well-formed info (no two identities equal in
+all four fields) whose rearrangement hashes differently.  This is why `C20_perm_invariant`
+carries the hypothesis on identities (the property's quantifier has it too). -/
+theorem C20_equal_key_identities_order_dependent :
+    ∃ a b : Identity, a ≠ b ∧ idKey a = idKey b ∧
+      verImpl ⟨[a, b], [], []⟩ ≠ verImpl ⟨[b, a], [], []⟩ := by
+  refine ⟨⟨[0x63], [0x74], [], [0x41]⟩, ⟨[0x63], [0x74], [], [0x42]⟩, by decide, rfl, ?_⟩
+  rw [C20_equal_key_identities_keep_order ⟨[0x63], [0x74], [], [0x41]⟩ ⟨[0x63], [0x74], [], [0x42]⟩ rfl,
+    C20_equal_key_identities_keep_order ⟨[0x63], [0x74], [], [0x42]⟩ ⟨[0x63], [0x74], [], [0x41]⟩ rfl]
+  decide
+
 /-! ### Agreement with XEP-0115 §5.1 -/
 
 theorem C20_isSort_mergeSort {α} {le : α → α → Bool}
